@@ -10,6 +10,7 @@ package main
 //@ spec func rateUnit(v string) string = splitn_n(v, "/", 2) == 1 ? "1s" : (bareUnit(splitn_i(v, "/", 2, 1)) ? "1" + splitn_i(v, "/", 2, 1) : splitn_i(v, "/", 2, 1))
 
 //@ func (*rateFlag).Set
+//@   deadexit return fmt.Errorf("-rate format %q doesn't match the \"freq/
 //@   property C19 C16
 //@   returns (err)
 //@   requires [non-nil] f != nil && f.Rate != nil
